@@ -6,6 +6,14 @@ import C15, C16, C13, C10, C12, C05, C07, C20, C18
 
 def jobs(tier):
     J = []
+    for sc in range(1, 13):
+        J.append(V.Job("add_scenario.%02d" % sc, "vnacal/c03_add.c", "h_add_scenario", C20.BASE,
+                       defines=C20.CUT + ["-DSCENARIO=%d" % sc], unwind=14, union_struct=True, kind="bounded",
+                       canary=(sc in (1, 3)),
+                       functions=["_vnacal_new_add_common", "vnacal_new_add_mapped_matrix_m", "vnacal_new_add_through_m",
+                                  "vnacal_new_add_double_reflect_m", "build_connectivity_matrix", "add_equation"],
+                       bound="scenario %d of harness/vnacal/c03_add.c (concrete shapes/arguments, symbolic measured values)" % sc,
+                       timeout=200))
     # memory-safety / leak obligations of the data-structure harnesses (same jobs, re-run under this id)
     def take(mod, pats, prefix):
         for j in mod.jobs("quick"):
